@@ -6,6 +6,7 @@ import (
 	"fmt"
 	"reflect"
 	"strings"
+	"time"
 	"unicode"
 
 	pb "github.com/GoogleCloudPlatform/grpc-gcp-go/grpcgcp/grpc_gcp"
@@ -349,7 +350,35 @@ func protoCases() ([]c11case, []string) {
 	return msgs, locs
 }
 
-func checkC11(c *vsched.RunCtx) {
+func checkC11(c *vsched.RunCtx) { runC11(c, "C11") }
+
+// c11Ptr: a pointer type that can point to itself
+type c11Ptr *c11Ptr
+
+type c11Self struct {
+	Key  interface{}
+	Name string
+}
+
+// cyclicCases: values whose pointer / interface chain comes back to itself
+func cyclicCases() []c11case {
+	var x interface{}
+	x = &x
+	var p c11Ptr
+	p = c11Ptr(&p)
+	m := &c11Self{Name: "n"}
+	m.Key = m
+	var y interface{}
+	m2 := &c11Self{Name: "n"}
+	y = &y
+	m2.Key = y
+	return []c11case{{"x := interface{}(&x)", x}, {"p := c11Ptr(&p)", p}, {"message whose Key field holds the message itself", m}, {"message whose Key field holds y := interface{}(&y)", m2}}
+}
+
+// runC11 evaluates the enumeration for C11 (totality and agreement with the reference) or, with
+// prop "C05", for the totality clause of C05 ("every request/response message shape and key
+// locator ... never a crash") only.
+func runC11(c *vsched.RunCtx, prop string) {
 	maxCons, maxSeg := 3, 3
 	if c.Thorough() {
 		maxCons = 4
@@ -365,17 +394,38 @@ func checkC11(c *vsched.RunCtx) {
 			v.Count++
 			return
 		}
-		viol[sig] = &vsched.Violation{Property: "C11", Rule: rule, Sig: sig, Msg: msg, Harness: "key-extraction", Count: 1}
+		if prop == "C05" {
+			if rule != "C11.TOTAL" {
+				return
+			}
+			rule, sig = "C05.PANIC", "C05.PANIC key extraction: "+cause
+		}
+		viol[sig] = &vsched.Violation{Property: prop, Rule: rule, Sig: sig, Msg: msg, Harness: "key-extraction", Count: 1}
 	}
+	hung := 0
 	evalOne := func(desc string, msg interface{}, loc string) {
 		st.Execs++
 		var keys []string
 		var err error
 		panicked := interface{}(nil)
-		func() {
+		if hung >= 2 {
+			return // two evaluations are already spinning: stop feeding inputs to a function that does not return
+		}
+		done := make(chan struct{})
+		go func() {
+			defer close(done)
 			defer func() { panicked = recover() }()
 			keys, err = getAffinityKeysFromMessage(loc, msg)
 		}()
+		select {
+		case <-done:
+		case <-time.After(30 * time.Second):
+			// a call that takes microseconds did not return in 30 s: not a timing verdict
+			hung++
+			report("C11.TOTAL", "does not return", fmt.Sprintf("getAffinityKeysFromMessage(%q, %s) has not returned after 30 s", loc, desc))
+			st.Outcomes["no-return"]++
+			return
+		}
 		if panicked != nil {
 			report("C11.TOTAL", "panic: "+strings.SplitN(fmt.Sprint(panicked), "[", 2)[0], fmt.Sprintf("getAffinityKeysFromMessage(%q, %s) panicked: %v", loc, desc, panicked))
 			st.Outcomes["panic"]++
@@ -429,6 +479,13 @@ func checkC11(c *vsched.RunCtx) {
 			}
 			for _, loc := range locs {
 				evalOne(desc, msg, loc)
+			}
+		}
+	}
+	if c.Shard == 0 {
+		for _, m := range cyclicCases() {
+			for _, l := range []string{"key", "key.key", "name", "x", ""} {
+				evalOne(m.desc, m.msg, l)
 			}
 		}
 	}
